@@ -2,9 +2,9 @@
    Only statements and `exact`; proofs in Proofs/C37.v, the model (Config.Validate of gate/config, java/config,
    lite/config and the reference predicates for host:port and qualified names) in Model/ConfigValidate.v.
 
-   `validate` (= spec_validate) is the transcription of the code's clause structure with the two documented
-   comparisons ("use a number > 0"; forced-host keys are matched case-insensitively); `impl_validate` is the
-   code as it is.  `Broken` is written from the property text and the shipped config documentation: it is the
+   `validate` = `impl_validate` is the transcription of the code as it is now, i.e. after the fix commits d6c5881
+   (`!(quota.OPS > 0)`) and ad3d3c8 (forced-host keys distinct ignoring case); it coincides with the specified
+   validator (C37_impl_is_spec).  `prefix_validate` is the code before those commits, kept for the record.  `Broken` is written from the property text and the shipped config documentation: it is the
    disjunction printed by the second command below.  The round-trip half of the property (YAML/JSON marshal,
    loader, equality) has no Coq model — yaml.v3, encoding/json and viper are not modelled — and is decided by
    differential testing in the harness only. *)
@@ -62,24 +62,30 @@ Theorem C37_accepts_exactly : forall c : cfg, validate c = [] <-> ~ Broken c.
 Proof. exact Proofs.C37.C37_accepts_exactly. Qed.
 Print Assumptions C37_accepts_exactly.
 
-(* The code as it is differs from `validate` only on the two recorded triggers ... *)
-Theorem impl_eq_spec_off_trigger : forall c : cfg,
-  nan_quota c = false -> forced_dup_trigger c = false -> impl_validate c = spec_validate c.
-Proof. exact Proofs.C37.impl_eq_spec_off_trigger. Qed.
-Print Assumptions impl_eq_spec_off_trigger.
+(* today's code is the specified validator *)
+Theorem C37_impl_is_spec : forall c : cfg, impl_validate c = spec_validate c.
+Proof. exact Proofs.C37.C37_impl_is_spec. Qed.
+Print Assumptions C37_impl_is_spec.
 
-(* ... and on them it accepts a configuration with a broken constraint:
-   C37-1: an enabled quota whose ops is NaN (`quota.OPS <= 0` is false for NaN) *)
-Theorem C37_refuted : exists c : cfg,
-  nan_quota c = true /\ Broken c /\ impl_validate c = [] /\ spec_validate c = [QuotaOps].
-Proof. exact Proofs.C37.C37_refuted. Qed.
-Print Assumptions C37_refuted.
+(* Facts about the PRE-FIX code (findings C37-1 and C37-2, both fixed): it differed from the specified validator
+   only on the two triggers ... *)
+Theorem prefix_eq_spec_off_trigger : forall c : cfg,
+  nan_quota c = false -> forced_dup_trigger c = false -> prefix_validate c = spec_validate c.
+Proof. exact Proofs.C37.prefix_eq_spec_off_trigger. Qed.
+Print Assumptions prefix_eq_spec_off_trigger.
 
-(* C37-2: two forcedHosts keys that differ only in letter case (the loader lower-cases keys and keeps one) *)
-Theorem C37_refuted_forced : exists c : cfg,
-  forced_dup_trigger c = true /\ Broken c /\ impl_validate c = [] /\ spec_validate c = [ForcedCaseDup].
-Proof. exact Proofs.C37.C37_refuted_forced. Qed.
-Print Assumptions C37_refuted_forced.
+(* ... and on them it accepted a configuration with a broken constraint, which today's code rejects:
+   C37-1 (fixed by d6c5881): an enabled quota whose ops is NaN (`quota.OPS <= 0` is false for NaN) *)
+Theorem C37_prefix_refuted : exists c : cfg,
+  nan_quota c = true /\ Broken c /\ prefix_validate c = [] /\ impl_validate c = [QuotaOps].
+Proof. exact Proofs.C37.C37_prefix_refuted. Qed.
+Print Assumptions C37_prefix_refuted.
+
+(* C37-2 (fixed by ad3d3c8): two forcedHosts keys that differ only in letter case *)
+Theorem C37_prefix_refuted_forced : exists c : cfg,
+  forced_dup_trigger c = true /\ Broken c /\ prefix_validate c = [] /\ impl_validate c = [ForcedCaseDup].
+Proof. exact Proofs.C37.C37_prefix_refuted_forced. Qed.
+Print Assumptions C37_prefix_refuted_forced.
 
 (* Non-vacuity: the shipped defaults with two servers are accepted; a configuration with level 10 and
    threshold -2 is rejected with exactly those two clauses. *)
@@ -88,16 +94,16 @@ Example C37_nonvacuous :
 Proof. exact Proofs.C37.C37_nonvacuous. Qed.
 
 (* Translator obligations (Gen/ConfigShape.v is regenerated from /repo before every build):
-   the validators' source still has exactly the error sites, warning sites, validator calls, returns and
-   continues, under the same guard conditions and in the same order, as the text the model was transcribed
-   from — optionally with fixes/C37-1.diff and/or fixes/C37-2.diff applied ... *)
-Theorem C37_source_shape : exists fix1 fix2 : bool,
-  Verif.Gen.ConfigShape.sites = Verif.Model.ConfigShape.expected_sites fix1 fix2.
+   the validators' source has exactly the error sites, warning sites, validator calls, returns and continues,
+   under the same guard conditions and in the same order, as the text the model was transcribed from
+   (today's code: both fix commits present) ... *)
+Theorem C37_source_shape :
+  Verif.Gen.ConfigShape.sites = Verif.Model.ConfigShape.expected_sites true true.
 Proof. exact shape_matches. Qed.
 Print Assumptions C37_source_shape.
 
 (* ... and every clause id the transcription of the code can report names one of those error sites
-   (known cl := the name of cl occurs among the ids of the "e" sites of expected_sites false false; both
+   (known cl := the name of cl occurs among the ids of the "e" sites of expected_sites true true; both
    definitions are printed below). *)
 Theorem C37_clauses_are_sites : forall c : cfg, forallb known (impl_validate c) = true.
 Proof. exact impl_clauses_are_sites. Qed.
